@@ -26,6 +26,9 @@ RULE = ("cases = (poses, selector, delta, tol/rel_tol, unit, all_pairs); exact-g
         "margin-filtered; non-trivial = at least one pair selected and at least one candidate pose/pair rejected, or a "
         "refusal with >= 3 poses; distinct by content hash")
 
+MODELLED = ["evo/core/filters.py:filter_pairs_by_index", "evo/core/filters.py:filter_pairs_by_path",
+            "evo/core/filters.py:filter_pairs_by_angle", "evo/core/metrics.py:id_pairs_from_delta",
+            "evo/core/geometry.py:accumulated_distances"]
 TINY = Fraction(1, 10 ** 9)
 UNITS = {"f": "frames", "m": "meters", "rad": "radians", "deg": "degrees", "other": "seconds"}
 
@@ -742,6 +745,7 @@ def evaluate(ctx, cases):
 
 def check(ctx):
     lean = core.lean_side(ctx.prop, ctx.tier)
+    core.drift(ctx, MODELLED)
     cases = list(gen_cases(ctx))
     for a in range(0, len(cases), 4000):
         evaluate(ctx, cases[a:a + 4000])
